@@ -12,6 +12,9 @@ import copy, re
 from facts import callee_name, const_repr, place_str
 
 
+FOOTPRINT = set()   # bodies abstractly executed (entry or inlined); read by tools/footprint.py only
+
+
 class Undecided(Exception):
     pass
 
@@ -786,6 +789,7 @@ class FDI:
         """abstractly execute body `path`.  args: list of V (one per parameter) or None for fresh atoms named after
         the parameters.  Returns list of Row."""
         body = self.f.bodies[path]
+        FOOTPRINT.add(path)
         st = State()
         cells = {}
         for i, l in enumerate(body.locals):
@@ -1163,6 +1167,7 @@ class FDI:
 
     def push_frame(self, st, path, args, ret_to):
         body = self.f.bodies[path]
+        FOOTPRINT.add(path)
         cells = {}
         for i, l in enumerate(body.locals):
             cells[i] = st.alloc(Unknown(f"uninit _{i}"))
